@@ -226,6 +226,13 @@ theorem measureGate_in_circuit [Semiring R] [StarRing R] (pre rest : List (Op n 
   simp only [measureRecords, List.singleton_append, Op.applyA, Op.apply]
   rw [C03.applyStateA_eq pre hpre]
 
+/-- **`extend_circuit` / re-use of a block holding `MeasureGate`s**: the records of the extended circuit are the records of the
+first part followed by the records the appended block produces on the state the first part leaves — so a `MeasureGate` object
+placed twice records twice, each time about the state at that point, and keeps the later record. -/
+theorem measureRecords_extend [Semiring R] [StarRing R] (c1 c2 : List (Op n R)) (a : Array R) :
+    measureRecords (c1 ++ c2) a = measureRecords c1 a ++ measureRecords c2 (applyStateA c1 a) :=
+  measureRecords_append c1 c2 a
+
 /-! ### the executed carrier -/
 
 /-- **what the driver computes**: the vector `prob` evaluated with the model's own `ℚ[i]` operations and conjugation
